@@ -210,6 +210,11 @@ def construct_case(chk, rng, mode=None):
         if pi["uc"] != tc or pi["tc"] != uc:
             bad.append("inverted() does not swap the currencies")
         bad += normal_form_problems(pi, exact_inv, bound_strict=strict)
+        qi = pi.get("quot")
+        if not isinstance(qi, list) or qi[0] != tc or qi[1] != uc or \
+                val(qi[2]) != pi["rate"]:
+            bad.append("quotation of the inverted rate is inconsistent: %s"
+                       % (qi,))
         if bad:
             chk.violation("inverted(%s): %s" % (x.get("repr"),
                                                 "; ".join(bad)),
